@@ -191,7 +191,7 @@ class PF(EKF):
         '''
         r = torch.rand(self.particles, dtype=x.dtype, device=x.device)
         cumsumq = torch.cumsum(q, dim=-1)
-        return x[torch.searchsorted(cumsumq, r)]
+        return x[torch.searchsorted(cumsumq, r).clamp_(max=self.particles - 1)]
 
     def compute_cov(self, a, b, Q=0):
         '''Compute covariance of two set of variables.'''
